@@ -1,5 +1,6 @@
 (** C10 (crash at any point), continued: votes for a later round of the voting height, and the
-    vote handler as a whole. *)
+    vote handler as a whole.  (The future-vote path skips entries without signatures,
+    [signed_entries]: no guard on the message is needed.) *)
 From Coq Require Import List NArith Arith Bool Lia String.
 From GV Require Import Base.Ints Gen.Math Gen.Kernel Model.Mirror
   Proofs.Thresholds Proofs.MirrorAuth Proofs.MirrorNoop Proofs.MirrorChain Proofs.MirrorCert
@@ -108,10 +109,11 @@ Proof.
 Qed.
 
 Lemma K_handle_future ih ivs kind s m s' res :
-  (kind = KPrevote \/ kind = KPrecommit) -> K ih ivs s -> proofs_nonempty (vm_proofs m) -> vm_proofs m <> [] ->
+  (kind = KPrevote \/ kind = KPrecommit) -> K ih ivs s ->
   handle_future_votes kind s m = Ok (s', res) -> K ih ivs s' /\ pref ih ivs s s'.
 Proof.
-  intros Hk HK Hne Hnn. pose proof HK as (HI&_&(_&_&_&_&Xs)).
+  intros Hk HK. pose proof (signed_entries_nonempty (vm_proofs m)) as Hne.
+  pose proof HK as (HI&_&(_&_&_&_&Xs)).
   pose proof (cinv_nhr _ _ _ (proj1 HI)) as Hnhr.
   destruct (vot_vals _ _ _ (proj1 HI)) as [Evv _].
   assert (Hsame : forall r0, Ok (s, r0) = Ok (s', res) -> K ih ivs s' /\ pref ih ivs s s')
@@ -133,9 +135,11 @@ Proof.
     - destruct (re_pc e) as [[a b]|]; intros E; inversion E; subst; [exact G2|constructor]. }
   destruct (match coll_of e kind with Some c => c | None => _ end) as [spkh stored] eqn:Ec.
   pose proof (stored_full_good _ _ _ _ _ (Hstored _ _ eq_refl)) as [Fa Fn]. cbv zeta in Fa, Fn.
-  destruct (fold_left _ (vm_proofs m) _) as [[full' allv] inc] eqn:Hf.
+  destruct (fold_left _ (signed_entries (vm_proofs m)) _) as [[full' allv] inc] eqn:Hf.
   destruct allv; cbn [negb]; [|apply Hsame].
-  destruct (negb inc); [apply Hsame|].
+  destruct inc; cbn [negb]; [|apply Hsame].
+  assert (Hnn : signed_entries (vm_proofs m) <> []).
+  { intros E. rewrite E in Hf. cbn [fold_left] in Hf. inversion Hf. }
   destruct (future_fold_good kind (vm_h m) (vm_r m) (vs_keys (v_vals (k_vot s)))
               (fun fm x => bytes_eqb spkh (vm_pkh m) || negb (match pm_get fm (fst x) with Some _ => true | None => false end))
               _ _ _ _ _ _ Hf Hne Fa Fn) as (Fa'&Fn'&Fnn).
@@ -162,16 +166,15 @@ Qed.
 
 (** * The vote handler *)
 Lemma K_handle_votes ih ivs kind s m s' res :
-  (kind = KPrevote \/ kind = KPrecommit) -> K ih ivs s -> proofs_nonempty (vm_proofs m) ->
+  (kind = KPrevote \/ kind = KPrecommit) -> K ih ivs s ->
   handle_votes kind s m = Ok (s', res) -> K ih ivs s' /\ pref ih ivs s s'.
 Proof.
-  intros Hk HK Hne. pose proof HK as (HI&_&(_&_&_&_&Xs)).
+  intros Hk HK. pose proof HK as (HI&_&(_&_&_&_&Xs)).
   assert (Hsame : forall r0, Ok (s, r0) = Ok (s', res) -> K ih ivs s' /\ pref ih ivs s s')
     by (intros r0 E; inversion E; subst; split; [exact HK|apply pref_refl; exact Xs]).
   unfold handle_votes, bind.
   destruct (vm_proofs m) as [|vp0 vpl] eqn:Hp; [apply Hsame|].
-  assert (Hnn : vm_proofs m <> []) by (rewrite Hp; discriminate).
-  rewrite <- Hp in Hne |- *. clear Hp vp0 vpl.
+  rewrite <- Hp. clear Hp vp0 vpl.
   destruct (find_view _ _ _) as [[vid st]|] eqn:Hfv; [|discriminate].
   destruct (st =? ViewFuture); [apply K_handle_future; assumption|].
   destruct (st =? ViewFound) eqn:Hst; cbn [negb]; [|apply Hsame].
